@@ -697,8 +697,8 @@ void fixed_cases(vf::Ctx& c)
 
 void vf_run(vf::Ctx& c)
 {
-    fixed_cases(c);
     enum_values_x_ops(c);
+    fixed_cases(c);
     // E1: random histories of <= 40 ops over two bitsets, every type of this width (each shard has its own seed)
     int const per_cfg = c.thorough() ? (N <= 33 ? 60000 : 25000) : (N <= 33 ? 4000 : 2000);
     for (std::uint32_t ci = 0; ci < nconfigs; ++ci) {
